@@ -34,7 +34,7 @@ CONSTANTS NTok, MaxL, MaxR, MaxJobs, Meas, Mode,
 Missing == {0}
 Vals == {Missing} \cup SUBSET (1..NTok)
 Tables(n) == UNION {[1..k -> Vals] : k \in 0..n}
-Ths == {<<1, 2>>, <<2, 3>>, <<1, 1>>}
+Ths == IF Meas = "OVERLAP" THEN {<<1, 1>>, <<2, 1>>} ELSE {<<1, 2>>, <<2, 3>>, <<1, 1>>}
 
 VARIABLES lt, rt, thr, ae, am, valid,    \* the call (constant during a run)
           flag0, flag,                  \* tokenizer return_set at entry / now
